@@ -249,6 +249,8 @@ func Generate(r *gen.Rng) *Schema {
 		{Named: "point", Rel: "atomic"}, {Named: "itemList", Rel: "atomic"}, {Named: "strMap", Rel: "atomic"},
 		{Named: "atomicPoint", Rel: "separable"}, {Named: "atomicList", Rel: "associative"},
 		{Named: "numSet", Rel: "atomic"},
+		// overrides on multi-member atoms (preserve-unknown-fields + map-type atomic): the map member is overridden
+		{Named: "__untyped_deduced_", Rel: "atomic"}, {Named: "__untyped_atomic_", Rel: "separable"},
 	}
 	nf := 5 + r.Intn(6)
 	var fields []Field
